@@ -234,6 +234,7 @@ Definition sp_read (d dc : db) (nb eb : Z) (k : kind) : out :=
                         (Z.of_nat (length (filter (fun e => match d_edge dc e with Some _ => true | None => false end) (range eb))))
   | StoreLabel l => OIds (label_ids_of dc nb l)
   | StoreProp n k => OVal (match d_node dc n with Some (_, ps) => pget k ps | None => None end)
+  | FreshLabelScan l => OIds (label_ids_of dc nb l)
   end.
 
 (** the answer the specification gives to [Read s k] in state [sp] *)
